@@ -661,13 +661,20 @@ class IPPO(MultiAgentRLAlgorithm):
                 next_done=next_done,
                 advantages=advantages,
             )
-            advantages = advantages.reshape((-1,))
-            values = values.reshape((-1,))
+            # Observations and actions are concatenated agent by agent below, so order
+            # the per-step estimates (step, agent, env) the same way: (agent, step, env)
+            n_agents = len(states)
+            advantages = (
+                advantages.reshape(num_steps, n_agents, -1).transpose(0, 1).reshape((-1,))
+            )
+            values = values.reshape(num_steps, n_agents, -1).transpose(0, 1).reshape((-1,))
             returns = advantages + values
 
         states = concatenate_experiences_into_batches(states, obs_space)
         actions = concatenate_experiences_into_batches(actions, action_space)
-        log_probs = log_probs.reshape((-1,))
+        log_probs = (
+            log_probs.reshape(num_steps, n_agents, -1).transpose(0, 1).reshape((-1,))
+        )
         experiences = (states, actions, log_probs, advantages, returns, values)
 
         # Move experiences to algo device
